@@ -5,6 +5,8 @@
      PolygonInterface::offsetBoundingBox(0.0) geomtypes.cpp:210 -> poly_bbox
      ConnEnd::usePin / freeActivePin connend.cpp:182-233, ShapeConnectionPin::m_connend_users,
      ~ShapeConnectionPin, Obstacle::makeInactive / setNewPoly   -> the op state machine `step`
+     ConnRef::updateEndPoint connector.cpp (disconnect + freeActivePin of the old ConnEnd, new ConnEnd(shape, class) /
+     ConnEnd(junction) / ConnEnd(point)) as applied by Router::processActions for a queued user change -> op Retarget
      ConnEnd::assignPinVisibilityTo connend.cpp:274-370 (the filter of line 288-289) -> candidate / candidates
    and the route-level checkers run on the real routes (V). *)
 From Adapt Require Import Num.Qaux.
@@ -101,7 +103,7 @@ Definition end0 : endrec := mkend 0 0.
 
 Record state := mkstate {
   st_pins : list pinrec;              (* static pin table; index = pin id *)
-  st_ends : list endrec;              (* static table of pin-attached connector ends; index = end id *)
+  st_ends : list endrec;              (* table of connector ends; index = end id; an entry changes only by Retarget *)
   st_shape : nat -> option (list pt); (* polygon of each live shape *)
   users : nat -> list nat;            (* pin -> ends : ShapeConnectionPin::m_connend_users *)
   active : nat -> option nat          (* end -> pin  : ConnEnd::m_active_pin *)
@@ -112,7 +114,12 @@ Inductive op :=
 | Free (e : nat)                     (* ConnEnd::freeActivePin *)
 | MoveShape (s : nat) (dx dy : Q)    (* Router::moveShape(shape, dx, dy) *)
 | Resize (s : nat) (poly : list pt)  (* Router::moveShape(shape, newPoly) *)
-| DeleteShape (s : nat).             (* Router::deleteShape: ends become free points, pins are destroyed *)
+| DeleteShape (s : nat)              (* Router::deleteShape: ends become free points, pins are destroyed *)
+| Retarget (e : nat) (s : nat) (c : Z).
+                                     (* ConnRef::setSourceEndpoint / setDestEndpoint / setEndpoints with ConnEnd(shape s, class c)
+                                        as applied by the transaction: the old ConnEnd frees its active pin and is replaced.
+                                        A re-attachment to a free point or a junction is Retarget to a shape index that has no
+                                        polygon (no pin is ever a candidate for it). *)
 
 Definition init (pins : list pinrec) (ends : list endrec) (shapes : nat -> option (list pt)) : state :=
   mkstate pins ends shapes (fun _ => []) (fun _ => None).
@@ -133,6 +140,24 @@ Definition candidate (st : state) (e p : nat) : bool :=
 Definition candidates (st : state) (e : nat) : list nat :=
   filter (candidate st e) (seq 0 (length (st_pins st))).
 
+Fixpoint set_nth {A : Type} (n : nat) (x : A) (l : list A) : list A :=
+  match l, n with
+  | [], _ => []
+  | _ :: r, O => x :: r
+  | a :: r, S k => a :: set_nth k x r
+  end.
+(* ConnEnd::freeActivePin *)
+Definition free_end (st : state) (e : nat) : state :=
+  match active st e with
+  | None => st
+  | Some p =>
+      mkstate (st_pins st) (st_ends st) (st_shape st)
+              (fun q => if Nat.eqb q p then filter (fun y => negb (Nat.eqb e y)) (users st q) else users st q)
+              (fun f => if Nat.eqb f e then None else active st f)
+  end.
+Definition set_end (st : state) (e : nat) (r : endrec) : state :=
+  mkstate (st_pins st) (set_nth e r (st_ends st)) (st_shape st) (users st) (active st).
+
 Definition opt_nat_eqb (a : option nat) (b : nat) : bool :=
   match a with Some x => Nat.eqb x b | None => false end.
 
@@ -144,6 +169,7 @@ Definition step_ok (st : state) (o : op) : bool :=
   | MoveShape s _ _ => shape_alive st s
   | Resize s poly => shape_alive st s && negb (is_nil poly)
   | DeleteShape s => shape_alive st s
+  | Retarget e _ _ => Nat.ltb e (length (st_ends st))
   end.
 
 Definition remove_nat (x : nat) (l : list nat) : list nat := filter (fun y => negb (Nat.eqb x y)) l.
@@ -180,6 +206,7 @@ Definition step (st : state) (o : op) : state :=
                         | Some p => if Nat.eqb (p_shape (pin_of st p)) s then None else Some p
                         | None => None
                         end)
+  | Retarget e s c => set_end (free_end st e) e (mkend s c)
   end.
 
 Definition run (st : state) (ops : list op) : state := fold_left step ops st.
